@@ -1,4 +1,4 @@
-/- C32 driver: `C32 serve|trace sockIp proto [trusted] [gai] …` (`gai` = the strings the raw resolver accepted; validity is
+/- C32 driver: `C32 serve|trace|conn sockIp proto [trusted] [gai] …` (`conn`: `[[lines, K|L|X|A],…]` → the steps of `connEvents`) (`gai` = the strings the raw resolver accepted; validity is
    the model `isValidIp` on top of it), `C32 valid [cands] [gai]`, `C32 spec sockIp [trusted] [[line,…],…]` (no validity
    input: `Spec.allowedOf`), `C32 numeric [strs]` (`Spec.numericIP`) -/
 import TornadoModel.Base.Wire
@@ -20,6 +20,18 @@ def decEv (v : V) : Option Ev := do
   | [.atom "F"] => pure .finish
   | [.atom "C"] => pure .close
   | [.atom "X"] => pure .finishRaises
+  | _ => none
+
+def decOutcome : V → Option Outcome
+  | .atom "K" => some .keep
+  | .atom "L" => some .last
+  | .atom "X" => some .raises
+  | .atom "A" => some .abort
+  | _ => none
+
+def decConnReq (v : V) : Option (List (List Nat) × Outcome) := do
+  match ← v.list? with
+  | [ls, o] => pure (← decStrs ls, ← decOutcome o)
   | _ => none
 
 /-- every step of a trace: `[obs, ctx.remote_ip, ctx.protocol]` after each event -/
@@ -45,6 +57,12 @@ def handle (toks : List String) : String :=
       match ip.cps?, proto.cps?, decStrs tr, decStrs va, evs.list? >>= (·.mapM decEv) with
       | some ip, some proto, some tr, some va, some evs =>
         ok [.list (traceAll (isValidIp (fun s => va.contains s)) (Ctx.init ip proto tr) evs)]
+      | _, _, _, _, _ => err "bad-arg"
+    | _, [.atom "conn", ip, proto, tr, va, reqs] =>
+      match ip.cps?, proto.cps?, decStrs tr, decStrs va, reqs.list? >>= (·.mapM decConnReq) with
+      | some ip, some proto, some tr, some va, some reqs =>
+        ok [.list (traceAll (isValidIp (fun s => va.contains s)) (Ctx.init ip proto tr) (connEvents reqs)),
+            .list ((servedReqs reqs).map (fun r => .list (r.map V.ofCps)))]
       | _, _, _, _, _ => err "bad-arg"
     | _, [.atom "valid", cs, va] =>
       match decStrs cs, decStrs va with
